@@ -102,3 +102,17 @@ Theorem history_restore_equal g v ops c :
 Proof.
   intros Hm Hv Hq Hr En Hn Ha. apply restored_session_equal; [exact Hm| |exact Ha]. exact (history_sess_inv g v ops c Hm Hv Hq Hr En Hn).
 Qed.
+
+(* ... and the ordering of the handled-identifier set is not a hypothesis either: it is kept by every call as long as the
+   identifiers handed in from outside (QoS 2 PUBLISH from the parser, restore_qos2_publish_handled) are within
+   1..idmax (AscQos2) *)
+From MQ Require Import Conn.AscQos2.
+Theorem history_restore_equal_full g v ops c :
+  1 <= g_idmax g -> v <> VUndet -> k_history_ok g (conn_new g v) ops -> ids_history_ok (g_idmax g) ops ->
+  run_state g (conn_new g v) ops = Some c -> c_need_store c = true -> no_app_ids c ->
+  let r := set_qos2 (do_restore (fresh_like g c) (c_store c)) (fold_left (fun s i => ins i s) (c_qos2 c) []) in
+  session_eq r c /\ conn_scope_eq r (fresh_like g c).
+Proof.
+  intros Hm Hv Hq Hi Hr En Hn. apply (history_restore_equal g v ops c Hm Hv Hq Hr En Hn).
+  pose proof (fresh_asc_qos2 (g_idmax g) g v ops Hi) as H. rewrite Hr in H. exact H.
+Qed.
